@@ -1,11 +1,11 @@
 #!/bin/sh
 # import wave-2 sub-agent changes from /root/scratch/seed2/<ID>_out/<name>/ into seeded/<ID>-<name>[-w2]/ (idempotent)
-for out in /root/scratch/seed2/C*_out; do
+for out in /root/scratch/seed3/C*_out; do
   id=$(basename $out _out)
   for d in $out/*/; do
     [ -f "$d/patch.diff" ] || continue
     n=$(basename $d); t="seeded/$id-$n"
-    if [ -d "$t" ] && ! cmp -s "$t/patch.diff" "$d/patch.diff"; then t="seeded/$id-$n-w2"; fi
+    if [ -d "$t" ] && ! cmp -s "$t/patch.diff" "$d/patch.diff"; then t="seeded/$id-$n-w3"; fi
     [ -d "$t" ] && continue
     mkdir -p "$t"; cp "$d/patch.diff" "$d/demo.py" "$d/meta.json" "$t/" 2>/dev/null; echo "imported $t"
   done
